@@ -76,8 +76,8 @@ variable (r : Routine) (kL b : Nat) (sl : LadSlices r kL b) (lb : LadLabels r kL
 theorem lad_skip (k kn pc : Nat) (sz : Nat) (ci : Int) (hci : imm64 ci = sz) (hsz : sz < 2 ^ 63) (rest : List DInstr)
     (hs : Slice r k ([ins .CMPQ [G 9, .imm ci] 0, ins .JLT [.target pc] 0] ++ rest)) (hl : findPc r pc = some (r.drop kn))
     (nl c y : Nat) (dc tc : List Nat) (s : State)
-    (st : LadSt M2 dbase dlen tp sp toff (Wblk jb 0) h hf src.length nl c y dc tc s) (hlen : src.length - 16 * c < sz) :
-    ∃ s', Reach r k s kn s' 2 ∧ LadSt M2 dbase dlen tp sp toff (Wblk jb 0) h hf src.length nl c y dc tc s' ∧
+    (st : LadSt M2 dbase dlen tp sp toff (Wblk jb 0) h hf src nl c y dc tc s) (hlen : src.length - 16 * c < sz) :
+    ∃ s', Reach r k s kn s' 2 ∧ LadSt M2 dbase dlen tp sp toff (Wblk jb 0) h hf src nl c y dc tc s' ∧
       KeepsM ladKeepG ladKeepV (List.range 8) s s' := by
   have r0 := guard_reach (idx := kn) hs.left rfl hl s (by rw [st.pc.lenG]; decide) (src.length - 16 * c) sz st.g9 hci true
     (by rw [cond_jlt _ _ (by omega) hsz]; simp; omega)
@@ -85,7 +85,7 @@ theorem lad_skip (k kn pc : Nat) (sz : Nat) (ci : Int) (hci : imm64 ci = sz) (hs
   have k0 : KeepsM (List.range 16) (List.range 32) (List.range 8) s (setFlags s (subF 8 (src.length - 16 * c) sz).2) :=
     keepsM_setFlags _ _ _ s _
   exact ⟨_, r0, ⟨st.pc.of_keepsM k0 (by decide), st.gh.of_keepsM k0 (by decide), st.rkp, st.g0, st.g9, st.g10, st.g13, st.g6, st.ctr,
-    st.acc, st.acclt, st.mem, st.hdc, st.htc⟩, k0.mono (by decide) (by decide) (fun _ h => h)⟩
+    st.acc, st.acclt, st.mem, st.hdc, st.htc, st.srcOK⟩, k0.mono (by decide) (by decide) (fun _ h => h)⟩
 
 theorem LadDone.after {k k1 B fb c y N1 : Nat} {dc : List Nat} {s s1 : State} (r1 : Reach r k s k1 s1 N1)
     (kp : KeepsM ladKeepG ladKeepV (List.range 8) s s1) (d : LadDone r kL M2 dlen rk jb src h hf k1 B fb c y dc s1) :
@@ -96,7 +96,7 @@ theorem LadDone.after {k k1 B fb c y N1 : Nat} {dc : List Nat} {s s1 : State} (r
 include sl lb lm hrk hrkb hjb hjbb hsb hsp hdb hsl htp hhf hto
 
 theorem lad_t0 (c y : Nat) (dc tc : List Nat) (s : State)
-    (st : LadSt M2 dbase dlen tp sp toff (Wblk jb 0) h hf src.length 1 c y dc tc s) (hc : 16 * c ≤ src.length)
+    (st : LadSt M2 dbase dlen tp sp toff (Wblk jb 0) h hf src 1 c y dc tc s) (hc : 16 * c ≤ src.length)
     (hlen : src.length - 16 * c < 16) :
     LadDone r kL M2 dlen rk jb src h hf (kL + 3120) 900 1 c y dc s := by
   obtain ⟨s', N, hN, r1, e⟩ := x0_reach r (kL + 3120) b sl.x0 lb.x0 M2 dbase dlen tp sp rk jb src lm hrk hrkb hjb hjbb hsb hsp hdb hsl htp
@@ -109,7 +109,7 @@ theorem lad_t0 (c y : Nat) (dc tc : List Nat) (s : State)
   exact e
 
 theorem lad_t1lo (c y : Nat) (dc tc : List Nat) (s : State)
-    (st : LadSt M2 dbase dlen tp sp toff (Wblk jb 0) h hf src.length 1 c y dc tc s) (hc : 16 * c ≤ src.length)
+    (st : LadSt M2 dbase dlen tp sp toff (Wblk jb 0) h hf src 1 c y dc tc s) (hc : 16 * c ≤ src.length)
     (hlen : src.length - 16 * c < 16) :
     LadDone r kL M2 dlen rk jb src h hf (kL + 2550) 902 1 c y dc s := by
   have hs := sl.x1; rw [x1_eq] at hs
@@ -120,7 +120,7 @@ theorem lad_t1lo (c y : Nat) (dc tc : List Nat) (s : State)
     _ _ (by omega) (by omega)
 
 theorem lad_t1 (c y : Nat) (dc tc : List Nat) (s : State)
-    (st : LadSt M2 dbase dlen tp sp toff (Wblk jb 0) h hf src.length 1 c y dc tc s) (hc : 16 * c ≤ src.length)
+    (st : LadSt M2 dbase dlen tp sp toff (Wblk jb 0) h hf src 1 c y dc tc s) (hc : 16 * c ≤ src.length)
     (hlen : src.length - 16 * c < 32) :
     LadDone r kL M2 dlen rk jb src h hf (kL + 2550) 1700 2 c y dc s := by
   by_cases h16 : src.length - 16 * c < 16
@@ -134,7 +134,7 @@ theorem lad_t1 (c y : Nat) (dc tc : List Nat) (s : State)
       (by simp [hashClassN]) d1).mono _ _ (by omega) (by omega)
 
 theorem lad_t2lo (c y : Nat) (dc tc : List Nat) (s : State)
-    (st : LadSt M2 dbase dlen tp sp toff (Wblk jb 0) h hf src.length 1 c y dc tc s) (hc : 16 * c ≤ src.length)
+    (st : LadSt M2 dbase dlen tp sp toff (Wblk jb 0) h hf src 1 c y dc tc s) (hc : 16 * c ≤ src.length)
     (hlen : src.length - 16 * c < 32) :
     LadDone r kL M2 dlen rk jb src h hf (kL + 1948) 1702 2 c y dc s := by
   have hs := sl.x2; rw [x2_eq] at hs
@@ -145,7 +145,7 @@ theorem lad_t2lo (c y : Nat) (dc tc : List Nat) (s : State)
     _ _ (by omega) (by omega)
 
 theorem lad_t2 (c y : Nat) (dc tc : List Nat) (s : State)
-    (st : LadSt M2 dbase dlen tp sp toff (Wblk jb 0) h hf src.length 1 c y dc tc s) (hc : 16 * c ≤ src.length)
+    (st : LadSt M2 dbase dlen tp sp toff (Wblk jb 0) h hf src 1 c y dc tc s) (hc : 16 * c ≤ src.length)
     (hlen : src.length - 16 * c < 64) :
     LadDone r kL M2 dlen rk jb src h hf (kL + 1948) 2500 3 c y dc s := by
   by_cases h16 : src.length - 16 * c < 32
@@ -157,7 +157,7 @@ theorem lad_t2 (c y : Nat) (dc tc : List Nat) (s : State)
       (by simp [hashClassN]) d1).mono _ _ (by omega) (by omega)
 
 theorem lad_t4lo (c y : Nat) (dc tc : List Nat) (s : State)
-    (st : LadSt M2 dbase dlen tp sp toff (Wblk jb 0) h hf src.length 1 c y dc tc s) (hc : 16 * c ≤ src.length)
+    (st : LadSt M2 dbase dlen tp sp toff (Wblk jb 0) h hf src 1 c y dc tc s) (hc : 16 * c ≤ src.length)
     (hlen : src.length - 16 * c < 64) :
     LadDone r kL M2 dlen rk jb src h hf (kL + 1343) 2502 3 c y dc s := by
   have hs := sl.x4; rw [x4_eq] at hs
@@ -168,7 +168,7 @@ theorem lad_t4lo (c y : Nat) (dc tc : List Nat) (s : State)
     _ _ (by omega) (by omega)
 
 theorem lad_t4 (c y : Nat) (dc tc : List Nat) (s : State)
-    (st : LadSt M2 dbase dlen tp sp toff (Wblk jb 0) h hf src.length 1 c y dc tc s) (hc : 16 * c ≤ src.length)
+    (st : LadSt M2 dbase dlen tp sp toff (Wblk jb 0) h hf src 1 c y dc tc s) (hc : 16 * c ≤ src.length)
     (hlen : src.length - 16 * c < 128) :
     LadDone r kL M2 dlen rk jb src h hf (kL + 1343) 3300 4 c y dc s := by
   by_cases h16 : src.length - 16 * c < 64
@@ -180,7 +180,7 @@ theorem lad_t4 (c y : Nat) (dc tc : List Nat) (s : State)
       (by simp [hashClassN]) d1).mono _ _ (by omega) (by omega)
 
 theorem lad_t8lo (c y : Nat) (dc tc : List Nat) (s : State)
-    (st : LadSt M2 dbase dlen tp sp toff (Wblk jb 0) h hf src.length 2 c y dc tc s) (hc : 16 * c ≤ src.length)
+    (st : LadSt M2 dbase dlen tp sp toff (Wblk jb 0) h hf src 2 c y dc tc s) (hc : 16 * c ≤ src.length)
     (hlen : src.length - 16 * c < 128) :
     LadDone r kL M2 dlen rk jb src h hf (kL + 707) 3302 4 c y dc s := by
   have hs := sl.x8; rw [x8_eq] at hs
@@ -191,7 +191,7 @@ theorem lad_t8lo (c y : Nat) (dc tc : List Nat) (s : State)
     _ _ (by omega) (by omega)
 
 theorem lad_t8 (c y : Nat) (dc tc : List Nat) (s : State)
-    (st : LadSt M2 dbase dlen tp sp toff (Wblk jb 0) h hf src.length 2 c y dc tc s) (hc : 16 * c ≤ src.length)
+    (st : LadSt M2 dbase dlen tp sp toff (Wblk jb 0) h hf src 2 c y dc tc s) (hc : 16 * c ≤ src.length)
     (hlen : src.length - 16 * c < 256) :
     LadDone r kL M2 dlen rk jb src h hf (kL + 707) 4100 5 c y dc s := by
   by_cases h16 : src.length - 16 * c < 128
@@ -203,7 +203,7 @@ theorem lad_t8 (c y : Nat) (dc tc : List Nat) (s : State)
       (by simp [hashClassN]) d1).mono _ _ (by omega) (by omega)
 
 theorem lad_t16lo (c y : Nat) (dc tc : List Nat) (s : State)
-    (st : LadSt M2 dbase dlen tp sp toff (Wblk jb 0) h hf src.length 4 c y dc tc s) (hc : 16 * c ≤ src.length)
+    (st : LadSt M2 dbase dlen tp sp toff (Wblk jb 0) h hf src 4 c y dc tc s) (hc : 16 * c ≤ src.length)
     (hlen : src.length - 16 * c < 256) :
     LadDone r kL M2 dlen rk jb src h hf (kL + 17) 4102 5 c y dc s := by
   have hs := sl.x16; rw [x16_eq'] at hs
@@ -216,7 +216,7 @@ theorem lad_t16lo (c y : Nat) (dc tc : List Nat) (s : State)
 set_option maxRecDepth 100000 in
 /-- `loopX16` and everything after it -/
 theorem lad_t16 : ∀ (q c y : Nat) (dc tc : List Nat) (s : State), (src.length - 16 * c) / 256 = q →
-    LadSt M2 dbase dlen tp sp toff (Wblk jb 0) h hf src.length 4 c y dc tc s → 16 * c ≤ src.length →
+    LadSt M2 dbase dlen tp sp toff (Wblk jb 0) h hf src 4 c y dc tc s → 16 * c ≤ src.length →
     LadDone r kL M2 dlen rk jb src h hf (kL + 17) (700 * q + 4102) (q + 5) c y dc s := by
   intro q
   induction q with
@@ -240,7 +240,7 @@ set_option maxRecDepth 100000 in
 theorem ladder_reach (y : Nat) (dc tc : List Nat) (s : State) (pc : PCtx s) (gh : GhCtx h s) (rkp : greg s 15 = 73014444032)
     (g0 : greg s 0 = hf) (g9 : greg s 9 = src.length) (g10 : greg s 10 = sp) (g13 : greg s 13 = dbase) (g6 : greg s 6 = tp + toff)
     (v14 : vreg s 14 = unlanes 8 jb) (acc : vreg s 21 = y) (acclt : y < 2 ^ 128) (hm : s.mem = M2 dc tc) (hdc : dc.length = dlen)
-    (htc : tc.length = 32) :
+    (htc : tc.length = 32) (hs0 : ∀ t, t.length = 32 → SrcFrom (M2 dc t) sp src 0) :
     ∃ s' N, N ≤ 700 * (src.length / 256) + 4200 ∧ Reach r kL s (kL + 3770) s' N ∧
       ∀ fuel, src.length / 256 + 5 ≤ fuel → LadEnd M2 dlen h (ladN rk jb h hf fuel 0 y src).2
         (spliceAt dc 0 (ladN rk jb h hf fuel 0 y src).1) s s' := by
@@ -254,10 +254,11 @@ theorem ladder_reach (y : Nat) (dc tc : List Nat) (s : State) (pc : PCtx s) (gh 
   have k1 := keeps_of_exec _ head_writes hr1
   have r1 : Reach r kL s (kL + 15) s1 15 := reach_seg sA (by decide) hr1
   have k1M : KeepsM ladKeepG ladKeepV (List.range 8) s s1 := k1.toM.mono (by decide) (by decide) (fun _ h => h)
-  have st1 : LadSt M2 dbase dlen tp sp toff (Wblk jb 0) h hf src.length 4 0 y dc tc s1 :=
+  have st1 : LadSt M2 dbase dlen tp sp toff (Wblk jb 0) h hf src 4 0 y dc tc s1 :=
     ⟨pc.of_keepsM k1M pRegs_lad, gh.of_keepsM k1M ghRegs_lad, (k1.g 15 (by decide)).trans rkp, (k1.g 0 (by decide)).trans g0,
       (k1.g 9 (by decide)).trans g9, (k1.g 10 (by decide)).trans g10, (k1.g 13 (by decide)).trans g13, (k1.g 6 (by decide)).trans g6,
-      fun l hl => (q1 l hl).trans (ctrW_zero _ (Wblk_qlt jb 0)).symm, (k1.v 21 (by decide)).trans acc, acclt, k1.mem.trans hm, hdc, htc⟩
+      fun l hl => (q1 l hl).trans (ctrW_zero _ (Wblk_qlt jb 0)).symm, (k1.v 21 (by decide)).trans acc, acclt, k1.mem.trans hm, hdc, htc,
+      fun t ht => by rw [Nat.mul_zero]; exact hs0 t ht⟩
   have hdrop : src.drop (16 * 0) = src := by rw [Nat.mul_zero, List.drop_zero]
   by_cases h64 : src.length < 64
   · obtain ⟨s2, r2, st2, k2⟩ := lad_skip r M2 dbase dlen tp sp jb src toff h hf (kL + 15) (kL + 1948) _ 64 64 imm64_64 (by decide) _ sG lb.lX2
@@ -272,9 +273,9 @@ theorem ladder_reach (y : Nat) (dc tc : List Nat) (s : State) (pc : PCtx s) (gh 
       ((k1.g 9 (by decide)).trans g9) imm64_64 false (by rw [cond_jlt _ _ (by omega) (by decide)]; simp; omega)
     simp only [Bool.false_eq_true, if_false] at r2
     have k2 : KeepsM (List.range 16) (List.range 32) (List.range 8) s1 (setFlags s1 (subF 8 src.length 64).2) := keepsM_setFlags _ _ _ s1 _
-    have st2 : LadSt M2 dbase dlen tp sp toff (Wblk jb 0) h hf src.length 4 0 y dc tc (setFlags s1 (subF 8 src.length 64).2) :=
+    have st2 : LadSt M2 dbase dlen tp sp toff (Wblk jb 0) h hf src 4 0 y dc tc (setFlags s1 (subF 8 src.length 64).2) :=
       ⟨st1.pc.of_keepsM k2 (by decide), st1.gh.of_keepsM k2 (by decide), st1.rkp, st1.g0, st1.g9, st1.g10, st1.g13, st1.g6, st1.ctr,
-        st1.acc, st1.acclt, st1.mem, st1.hdc, st1.htc⟩
+        st1.acc, st1.acclt, st1.mem, st1.hdc, st1.htc, st1.srcOK⟩
     obtain ⟨s', N, hN, r3, e⟩ := lad_t16 r kL b sl lb M2 dbase dlen tp sp rk jb src lm hrk hrkb hjb hjbb hsb hsp hdb hsl htp toff h hf hhf hto (src.length / 256) 0 y dc tc _ (by rw [Nat.mul_zero, Nat.sub_zero]) st2 (by omega)
     refine ⟨s', 15 + 2 + N, by omega, (r1.trans (r2.cast (by omega) rfl)).trans r3, ?_⟩
     intro fuel hfu
